@@ -21,6 +21,7 @@ theorem St_congr (s s' : App) (m : St s) (hv : s'.vals = s.vals) (hl : s'.last =
       obtain ⟨f1, f2, f3⟩ := m.pend.fresh q hq'
       exact ⟨by rw [hget]; exact f1, by rw [hv]; exact f2, f3⟩⟩
     last := by rw [hv, hl]; exact m.last
+    lastJ := by rw [hv, hl]; exact m.lastJ
     lastOnly := by intro o p h; rw [hl] at h; rw [hget]; exact m.lastOnly o p h
     lastSorted := by rw [hl]; exact m.lastSorted
     idxEx := by intro e he; rw [hi] at he; rw [hget]; exact m.idxEx e he
@@ -28,7 +29,8 @@ theorem St_congr (s s' : App) (m : St s) (hv : s'.vals = s.vals) (hl : s'.last =
     idx := by
       intro v hvm; rw [hv] at hvm
       have io := m.idx v hvm
-      exact { a1 := by rw [hu, hi]; exact io.a1, a2 := by rw [hu, hi]; exact io.a2, g := by rw [hi]; exact io.g, u := by rw [hi]; exact io.u }
+      exact { a1 := by rw [hu, hi]; exact io.a1, a2 := by rw [hu, hi]; exact io.a2, g := by rw [hi]; exact io.g, u := by rw [hi]; exact io.u
+              j := by rw [hi]; exact io.j }
     unbond := by rw [hp]; exact m.unbond
     infos := by intro v hvm; rw [hv] at hvm; simp only [getInfo, hinf]; exact m.infos v hvm
     cons := by
@@ -55,23 +57,24 @@ theorem St_last (s : App) (L : List (Nat × Int)) (m : St s) (hL : ∀ o, alooku
   exact {
     sorted := m.sorted, keys := m.keys, cls := m.cls, hasActive := m.hasActive
     pend := ⟨m.pend.ops, m.pend.keys, m.pend.fresh⟩
-    last := by intro v hv; show alookup v.op L = lastOf v; rw [hL]; exact m.last v hv
+    last := by intro v hv hj; show alookup v.op L = lastOf v; rw [hL]; exact m.last v hv hj
+    lastJ := by intro v hv hj; show alookup v.op L ≠ none ↔ v.status = .bonded; rw [hL]; exact m.lastJ v hv hj
     lastOnly := by intro o p h; have h' : alookup o L = some p := h; rw [hL] at h'; exact m.lastOnly o p h'
     lastSorted := hLs
     idxEx := m.idxEx, idxNodup := m.idxNodup
-    idx := fun v hv => { a1 := (m.idx v hv).a1, a2 := (m.idx v hv).a2, g := (m.idx v hv).g, u := (m.idx v hv).u }
+    idx := fun v hv => { a1 := (m.idx v hv).a1, a2 := (m.idx v hv).a2, g := (m.idx v hv).g, u := (m.idx v hv).u, j := (m.idx v hv).j }
     unbond := m.unbond, infos := m.infos, cons := m.cons, updSorted := m.updSorted, updEx := m.updEx
     qSorted := m.qSorted, qNodup := m.qNodup, qRecs := m.qRecs }
 
 /-- the first loop when every record with positive power is already bonded: only the power table changes -/
 theorem applyLoop_bonded2 (s : App) (maxV : Nat) : ∀ (rest : List (Nat × Nat)) (acc a : LoopAcc),
-    (∀ e ∈ rest, ∀ v, s.getVal e.2 = some v → powerOf v.tokens > 0 → v.status = .bonded) →
+    (∀ e ∈ rest, ∀ v, s.getVal e.2 = some v → v.jailed = false → powerOf v.tokens > 0 → v.status = .bonded) →
     (∃ L, acc.app = { s with last := L } ∧ KSorted L) → acc.nb2b = 0 →
     applyLoop maxV rest acc = .done a → (∃ L, a.app = { s with last := L } ∧ KSorted L) ∧ a.nb2b = 0
   | [], acc, a, _, hL, hn, h => by simp [applyLoop] at h; subst h; exact ⟨hL, hn⟩
   | e :: rest, acc, a, hb, hL, hn, h => by
     unfold applyLoop at h
-    have hrest : ∀ x ∈ rest, ∀ v, s.getVal x.2 = some v → powerOf v.tokens > 0 → v.status = .bonded := fun x hx => hb x (by simp [hx])
+    have hrest : ∀ x ∈ rest, ∀ v, s.getVal x.2 = some v → v.jailed = false → powerOf v.tokens > 0 → v.status = .bonded := fun x hx => hb x (by simp [hx])
     split at h
     · obtain ⟨L, hL', hLs⟩ := hL
       have hget : acc.app.getVal e.2 = s.getVal e.2 := by rw [hL']; exact getVal_congr _ _ rfl _
@@ -89,10 +92,11 @@ theorem applyLoop_bonded2 (s : App) (maxV : Nat) : ∀ (rest : List (Nat × Nat)
           unfold visitVal at hv
           split at hv
           · cases hv
-          · split at hv
+          · rename_i hnj
+            split at hv
             · cases hv
             · rename_i hpz
-              have hwb : w.status = .bonded := hb e (by simp) w (by rw [← hget]; exact hg) (by omega)
+              have hwb : w.status = .bonded := hb e (by simp) w (by rw [← hget]; exact hg) (by simpa using hnj) (by omega)
               injection hv with hv
               subst hv
               have hbi : acc.app.bondIfNeeded w = (acc.app, w, 0) := by simp [bondIfNeeded, hwb]
@@ -150,7 +154,7 @@ theorem unbondOne_shape (x : App) (ups : List (Nat × Int)) (b : Int) (op : Nat)
 theorem unbondOne_St (x : App) (ups : List (Nat × Int)) (b : Int) (op : Nat) (v : Val) (m : St x) (hv : x.getVal op = some v)
     (hg : Gone v) :
     ∃ x', unbondOne ⟨x, ups, b⟩ op = .ok ⟨x', ups ++ [(v.key, 0)], b⟩ ∧ St x' ∧
-      (∀ o, o ≠ op → x'.getVal o = x.getVal o) ∧ (∃ w, x'.getVal op = some w ∧ Unb w ∧ w.key = v.key) ∧
+      (∀ o, o ≠ op → x'.getVal o = x.getVal o) ∧ (∃ w, x'.getVal op = some w ∧ Unb w ∧ w.key = v.key ∧ w.jailed = v.jailed) ∧
       x'.pending = x.pending ∧ x'.updated = x.updated ∧ x'.params = x.params ∧ x'.height = x.height ∧ x'.time = x.time ∧
       x'.lastTotal = x.lastTotal ∧ x'.cons = x.cons ∧ x'.infos = x.infos := by
   have hvm := mem_of_getVal x op v hv
@@ -167,12 +171,12 @@ theorem unbondOne_St (x : App) (ups : List (Nat × Int)) (b : Int) (op : Nat) (v
       obtain ⟨w, hw, hu, _⟩ := m.qRecs e he
       rw [heo, hv] at hw
       injection hw with hw
-      rw [← hw] at hu
-      exact gone_not_unb v hg hu
+      rw [← hw, hg.1] at hu
+      cases hu
     apply St_put x _ op (unbRec x v) m hvop rfl
     · intro y hy hn hk
       exact hn (by rw [m.keys y hy v hvm hk]; exact hvop)
-    · exact Or.inr (Or.inr hunb)
+    · exact Or.inr (Or.inr (Or.inl hunb))
     · right
       obtain ⟨a, ha, hact⟩ := m.hasActive
       refine ⟨a, ha, ?_, hact⟩
@@ -187,8 +191,10 @@ theorem unbondOne_St (x : App) (ups : List (Nat × Int)) (b : Int) (op : Nat) (v
       · intro e; rw [e, hv] at f1; cases f1
       · intro e; exact f2 v hvm e.symm
     · intro o ho; exact alookup_aerase_ne _ _ _ ho
-    · show alookup op (aerase op x.last) = lastOf (unbRec x v)
+    · intro _
+      show alookup op (aerase op x.last) = lastOf (unbRec x v)
       rw [alookup_aerase_self, lastOf_unb _ hunb]
+    · intro hj; exact absurd hj (by rw [hunb.2.1]; simp)
     · exact ksorted_aerase _ _ m.lastSorted
     · intro e he
       rcases (mem_idxInsert _ _ _ h0).mp he with e1 | e1
@@ -215,7 +221,8 @@ theorem unbondOne_St (x : App) (ups : List (Nat × Int)) (b : Int) (op : Nat) (v
           show occ (unbRec x v).op (idxInsert (0, op) x.index) = 1 ∧ (0, (unbRec x v).op) ∈ idxInsert (0, op) x.index
           rw [show (unbRec x v).op = op from hvop]
           refine ⟨?_, mem_idxInsert_self _ _⟩
-          rw [occ_idxInsert _ _ _ h0, hocc0]; simp) }
+          rw [occ_idxInsert _ _ _ h0, hocc0]; simp)
+        j := (fun hj => absurd hj (by rw [hunb.2.1]; simp)) }
     · exact m.unbond
     · intro y hy _; exact m.infos y hy
     · exact m.infos v hvm
@@ -235,16 +242,143 @@ theorem unbondOne_St (x : App) (ups : List (Nat × Int)) (b : Int) (op : Nat) (v
     · exact nodup_entries_insert _ _ _ m.qNodup hnotq
     · intro e he
       rcases (mem_entries_insert _ _ _ _).mp he with e1 | e1
-      · left; rw [e1]; exact ⟨rfl, hunb, rfl, rfl⟩
+      · left; rw [e1]; exact ⟨rfl, rfl, rfl, rfl⟩
       · right
         exact ⟨fun eo => hnotq (List.mem_map.mpr ⟨e, e1, eo⟩), e1⟩
   · intro o ho
     have := getVal_setVal_ne x (unbRec x v) o (by rw [show (unbRec x v).op = op from hvop]; exact ho)
     rw [← this]; exact getVal_congr _ _ rfl _
-  · refine ⟨unbRec x v, ?_, ⟨rfl, hg.2.1, hg.2.2.1, hg.2.2.2⟩, rfl⟩
+  · refine ⟨unbRec x v, ?_, ⟨rfl, hg.2.1, hg.2.2.1, hg.2.2.2⟩, rfl, rfl⟩
     have := getVal_setVal_self x (unbRec x v)
     rw [show (unbRec x v).op = op from hvop] at this
     rw [← this]; exact getVal_congr _ _ rfl _
+
+/-- the state after one step of the second loop on a jailed record (no index entry is written for a jailed validator) -/
+def unbStateJ (x : App) (v : Val) (op : Nat) : App :=
+  { x with vals := insertVal (unbRec x v) x.vals
+           ubq := ubqInsertSlot (x.time + x.params.unbond, x.height) op x.ubq
+           last := aerase op x.last }
+
+theorem unbondOne_shapeJ (x : App) (ups : List (Nat × Int)) (b : Int) (op : Nat) (v : Val) (hv : x.getVal op = some v)
+    (hj : v.jailed = true) (hb : v.status = .bonded) (h0 : (powerOf v.tokens, op) ∉ x.index) :
+    unbondOne ⟨x, ups, b⟩ op = .ok ⟨unbStateJ x v op, ups ++ [(v.key, 0)], b + (v.tokens : Int)⟩ := by
+  have hvop := getVal_op _ _ _ hv
+  unfold unbondOne
+  simp only [hv, hb, bne_self_eq_false, Bool.false_eq_true, ↓reduceIte]
+  have he : idxErase (powerOf v.tokens, op) x.index = x.index := idxErase_of_not_mem _ _ h0
+  simp only [beginUnbonding, delIdx, setVal, setIdx, ubqInsert, delLast, hj, hvop, he, ↓reduceIte,
+    unbRec, unbStateJ]
+
+/-- one step of the second loop on a record jailed in this block: it starts unbonding, nothing else moves -/
+theorem unbondOne_St_j (x : App) (ups : List (Nat × Int)) (b : Int) (op : Nat) (v : Val) (m : St x) (hv : x.getVal op = some v)
+    (hj : Jl v) (hb : v.status = .bonded) :
+    ∃ x', unbondOne ⟨x, ups, b⟩ op = .ok ⟨x', ups ++ [(v.key, 0)], b + (v.tokens : Int)⟩ ∧ St x' ∧
+      (∀ o, o ≠ op → x'.getVal o = x.getVal o) ∧ (∃ w, x'.getVal op = some w ∧ Jl w ∧ w.status = .unbonding ∧ w.key = v.key ∧ w.jailed = v.jailed) ∧
+      x'.pending = x.pending ∧ x'.updated = x.updated ∧ x'.params = x.params ∧ x'.height = x.height ∧ x'.time = x.time ∧
+      x'.lastTotal = x.lastTotal ∧ x'.cons = x.cons ∧ x'.infos = x.infos := by
+  have hvm := mem_of_getVal x op v hv
+  have hvop := getVal_op _ _ _ hv
+  have io := m.idx v hvm
+  have hocc0 : occ op x.index = 0 := by rw [← hvop]; exact io.j hj.1
+  have h0 : (powerOf v.tokens, op) ∉ x.index := fun hm => not_mem_of_occ_zero op x.index hocc0 _ hm rfl
+  have hsh := unbondOne_shapeJ x ups b op v hv hj.1 hb h0
+  have hjw : Jl (unbRec x v) := ⟨hj.1, hj.2⟩
+  refine ⟨_, hsh, ?_, ?_, ?_, rfl, rfl, rfl, rfl, rfl, rfl, rfl, rfl⟩
+  · have hnotq : op ∉ (qEntries x.ubq).map (·.2) := by
+      intro hm
+      obtain ⟨e, he, heo⟩ := List.mem_map.mp hm
+      obtain ⟨w, hw, hu, _⟩ := m.qRecs e he
+      rw [heo, hv] at hw
+      injection hw with hw
+      rw [← hw, hb] at hu
+      cases hu
+    apply St_put x _ op (unbRec x v) m hvop rfl
+    · intro y hy hn hk
+      exact hn (by rw [m.keys y hy v hvm hk]; exact hvop)
+    · exact Or.inr (Or.inr (Or.inr hjw))
+    · right
+      obtain ⟨a, ha, hact⟩ := m.hasActive
+      refine ⟨a, ha, ?_, hact⟩
+      intro e
+      have : a = v := sorted_op_inj _ m.sorted a ha v hvm (by rw [e, hvop])
+      rw [this] at hact
+      exact active_not_jl v hact hj
+    · exact List.Sublist.refl _
+    · intro q hq
+      obtain ⟨f1, f2, _⟩ := m.pend.fresh q hq
+      refine ⟨?_, ?_⟩
+      · intro e; rw [e, hv] at f1; cases f1
+      · intro e; exact f2 v hvm e.symm
+    · intro o ho; exact alookup_aerase_ne _ _ _ ho
+    · intro hnj; exact absurd hnj (by show ¬ v.jailed = false; rw [hj.1]; simp)
+    · intro _
+      show alookup op (aerase op x.last) ≠ none ↔ (unbRec x v).status = .bonded
+      rw [alookup_aerase_self]
+      constructor
+      · intro h; exact absurd rfl h
+      · intro h; cases h
+    · exact ksorted_aerase _ _ m.lastSorted
+    · intro e he; exact Or.inl he
+    · exact m.idxNodup
+    · intro o _; rfl
+    · intro e he _; exact he
+    · exact {
+        a1 := (fun ha => absurd hjw (active_not_jl _ ha))
+        a2 := (fun hin => by
+          exfalso
+          have hin' : v.op ∈ x.updated := hin
+          exact active_not_jl v (io.a2 hin').1 hj)
+        g := (fun hg' => absurd hjw (gone_not_jl _ hg'))
+        u := (fun hu => absurd hjw (unb_not_jl _ hu))
+        j := (fun _ => by
+          show occ (unbRec x v).op x.index = 0
+          rw [show (unbRec x v).op = op from hvop]; exact hocc0) }
+    · exact m.unbond
+    · intro y hy _; exact m.infos y hy
+    · exact m.infos v hvm
+    · intro y hy _; rfl
+    · have hc := m.cons v hvm
+      unfold valByKey at hc
+      show alookup v.key x.cons = some op
+      cases hk : alookup v.key x.cons with
+      | none => rw [hk] at hc; cases hc
+      | some o1 =>
+        rw [hk] at hc
+        simp only at hc
+        rw [← getVal_op _ _ _ hc, hvop]
+    · exact m.updSorted
+    · intro o _; exact Iff.rfl
+    · exact sorted_insert _ _ _ m.qSorted
+    · exact nodup_entries_insert _ _ _ m.qNodup hnotq
+    · intro e he
+      rcases (mem_entries_insert _ _ _ _).mp he with e1 | e1
+      · left; rw [e1]; exact ⟨rfl, rfl, rfl, rfl⟩
+      · right
+        exact ⟨fun eo => hnotq (List.mem_map.mpr ⟨e, e1, eo⟩), e1⟩
+  · intro o ho
+    have := getVal_setVal_ne x (unbRec x v) o (by rw [show (unbRec x v).op = op from hvop]; exact ho)
+    rw [← this]; exact getVal_congr _ _ rfl _
+  · refine ⟨unbRec x v, ?_, hjw, rfl, rfl, rfl⟩
+    have := getVal_setVal_self x (unbRec x v)
+    rw [show (unbRec x v).op = op from hvop] at this
+    rw [← this]; exact getVal_congr _ _ rfl _
+
+/-- a record the second loop meets: removed in this block, or jailed in this block -/
+def Leaving (v : Val) : Prop := Gone v ∨ (Jl v ∧ v.status = .bonded)
+/-- what it becomes -/
+def Left (w : Val) : Prop := Unb w ∨ (Jl w ∧ w.status = .unbonding)
+
+theorem unbondOne_St' (x : App) (ups : List (Nat × Int)) (b : Int) (op : Nat) (v : Val) (m : St x) (hv : x.getVal op = some v)
+    (hl : Leaving v) :
+    ∃ x' b', unbondOne ⟨x, ups, b⟩ op = .ok ⟨x', ups ++ [(v.key, 0)], b'⟩ ∧ St x' ∧
+      (∀ o, o ≠ op → x'.getVal o = x.getVal o) ∧ (∃ w, x'.getVal op = some w ∧ Left w ∧ w.key = v.key ∧ w.jailed = v.jailed) ∧
+      x'.pending = x.pending ∧ x'.updated = x.updated ∧ x'.params = x.params ∧ x'.height = x.height ∧ x'.time = x.time ∧
+      x'.lastTotal = x.lastTotal ∧ x'.cons = x.cons ∧ x'.infos = x.infos := by
+  rcases hl with hg | ⟨hj, hb⟩
+  · obtain ⟨x', h1, h2, h3, ⟨w, hw, hu, hk, hjj⟩, r⟩ := unbondOne_St x ups b op v m hv hg
+    exact ⟨x', b, h1, h2, h3, ⟨w, hw, Or.inl hu, hk, hjj⟩, r⟩
+  · obtain ⟨x', h1, h2, h3, ⟨w, hw, hjw, hs, hk, hjj⟩, r⟩ := unbondOne_St_j x ups b op v m hv hj hb
+    exact ⟨x', _, h1, h2, h3, ⟨w, hw, Or.inr ⟨hjw, hs⟩, hk, hjj⟩, r⟩
 
 end App
 end PoaVerif
@@ -267,26 +401,26 @@ theorem SameRest.trans' {a b c : App} (h1 : SameRest a b) (h2 : SameRest b c) : 
   ⟨h1.pending.trans h2.pending, h1.updated.trans h2.updated, h1.params.trans h2.params, h1.height.trans h2.height,
    h1.time.trans h2.time, h1.lastTotal.trans h2.lastTotal, h1.infos.trans h2.infos⟩
 
-/-- **the second loop over `Gone` records** -/
+/-- **the second loop over the records that leave the set** (removed or jailed in this block) -/
 theorem unbondLoop_St : ∀ (gl : List (Nat × Int)) (x : App) (ups : List (Nat × Int)) (b : Int),
-    St x → (∀ e ∈ gl, ∃ v, x.getVal e.1 = some v ∧ Gone v) → (gl.map (·.1)).Nodup →
-    ∃ x' ups', unbondLoop gl ⟨x, ups, b⟩ = .ok ⟨x', ups', b⟩ ∧ St x' ∧
+    St x → (∀ e ∈ gl, ∃ v, x.getVal e.1 = some v ∧ Leaving v) → (gl.map (·.1)).Nodup →
+    ∃ x' ups' T, unbondLoop gl ⟨x, ups, b⟩ = .ok ⟨x', ups', T⟩ ∧ St x' ∧
       (∀ o, o ∉ gl.map (·.1) → x'.getVal o = x.getVal o) ∧
-      (∀ o ∈ gl.map (·.1), ∃ w, x'.getVal o = some w ∧ Unb w ∧ ∀ v, x.getVal o = some v → w.key = v.key) ∧
+      (∀ o ∈ gl.map (·.1), ∃ w, x'.getVal o = some w ∧ Left w ∧ ∀ v, x.getVal o = some v → w.key = v.key ∧ w.jailed = v.jailed) ∧
       SameRest x' x
-  | [], x, ups, b, m, _, _ => ⟨x, ups, by simp [unbondLoop], m, fun _ _ => rfl, fun o ho => by simp at ho, SameRest.rfl' x⟩
+  | [], x, ups, b, m, _, _ => ⟨x, ups, b, by simp [unbondLoop], m, fun _ _ => rfl, fun o ho => by simp at ho, SameRest.rfl' x⟩
   | (op, q) :: gl, x, ups, b, m, hg, hn => by
     have hn' : (op :: gl.map (·.1)).Nodup := by simpa using hn
     have ⟨hn1, hn2⟩ := List.nodup_cons.mp hn'
     obtain ⟨v, hv, hgv⟩ := hg (op, q) (by simp)
-    obtain ⟨x1, h1, m1, f1, ⟨w1, hw1, hu1, hk1⟩, r1, r2, r3, r4, r5, r6, _, r8⟩ := unbondOne_St x ups b op v m hv hgv
-    have hg1 : ∀ e ∈ gl, ∃ v, x1.getVal e.1 = some v ∧ Gone v := by
+    obtain ⟨x1, b1, h1, m1, f1, ⟨w1, hw1, hu1, hk1, hj1⟩, r1, r2, r3, r4, r5, r6, _, r8⟩ := unbondOne_St' x ups b op v m hv hgv
+    have hg1 : ∀ e ∈ gl, ∃ v, x1.getVal e.1 = some v ∧ Leaving v := by
       intro e he
       have hne : e.1 ≠ op := by intro eo; exact hn1 (List.mem_map.mpr ⟨e, he, eo⟩)
       obtain ⟨v2, hv2, hg2⟩ := hg e (by simp [he])
       exact ⟨v2, by rw [f1 e.1 hne]; exact hv2, hg2⟩
-    obtain ⟨x2, ups2, h2, m2, f2, u2, s2⟩ := unbondLoop_St gl x1 (ups ++ [(v.key, 0)]) b m1 hg1 hn2
-    refine ⟨x2, ups2, ?_, m2, ?_, ?_, s2.trans' ⟨r1, r2, r3, r4, r5, r6, r8⟩⟩
+    obtain ⟨x2, ups2, T, h2, m2, f2, u2, s2⟩ := unbondLoop_St gl x1 (ups ++ [(v.key, 0)]) b1 m1 hg1 hn2
+    refine ⟨x2, ups2, T, ?_, m2, ?_, ?_, s2.trans' ⟨r1, r2, r3, r4, r5, r6, r8⟩⟩
     · unfold unbondLoop; rw [h1]; exact h2
     · intro o ho
       simp only [List.map_cons, List.mem_cons, not_or] at ho
@@ -302,7 +436,7 @@ theorem unbondLoop_St : ∀ (gl : List (Nat × Int)) (x : App) (ups : List (Nat 
           refine ⟨w1, hw1, hu1, ?_⟩
           intro v' hv'
           rw [hv] at hv'; injection hv' with hv'
-          rw [← hv']; exact hk1
+          rw [← hv']; exact ⟨hk1, hj1⟩
         · exact absurd e hin
 
 theorem occ_one_unique (op : Nat) : ∀ (l : List (Nat × Nat)), occ op l = 1 → ∀ e1 ∈ l, ∀ e2 ∈ l, e1.2 = op → e2.2 = op → e1 = e2
@@ -423,15 +557,19 @@ theorem matureOne_St (x : App) (op : Nat) (v : Val) (m : St x) (hv : x.getVal op
       · rw [ho]; exact hgself
       · rw [hgne q.op ho]; exact f1)
     last := (by
-      intro y hy
+      intro y hy hj
       obtain ⟨h1, _⟩ := hmemNew y hy
-      exact m.last y h1)
+      exact m.last y h1 hj)
+    lastJ := (by
+      intro y hy hj
+      obtain ⟨h1, _⟩ := hmemNew y hy
+      exact m.lastJ y h1 hj)
     lastOnly := (by
       intro o p hl
       have hl' : alookup o x.last = some p := hl
       have hne : o ≠ op := by
         intro e
-        rw [e, ← hvop, m.last v hvm, lastOf_unb v hu] at hl'; cases hl'
+        rw [e, ← hvop, m.lastU v hvm hu] at hl'; cases hl'
       rw [hgne o hne]; exact m.lastOnly o p hl')
     lastSorted := m.lastSorted
     idxEx := (by
@@ -470,7 +608,8 @@ theorem matureOne_St (x : App) (op : Nat) (v : Val) (m : St x) (hv : x.getVal op
         g := (fun hg => by show occ y.op (idxErase (0, op) x.index) = 0; rw [hocc]; exact iy.g hg)
         u := (fun hu' => by
           obtain ⟨b1, b2⟩ := iy.u hu'
-          exact ⟨by show occ y.op (idxErase (0, op) x.index) = 1; rw [hocc]; exact b1, hkeep _ b2 rfl⟩) })
+          exact ⟨by show occ y.op (idxErase (0, op) x.index) = 1; rw [hocc]; exact b1, hkeep _ b2 rfl⟩)
+        j := (fun hj => by show occ y.op (idxErase (0, op) x.index) = 0; rw [hocc]; exact iy.j hj) })
     unbond := m.unbond
     infos := (fun y hy => m.infos y (hmemNew y hy).1)
     cons := (by
@@ -519,15 +658,134 @@ end PoaVerif
 namespace PoaVerif
 namespace App
 
-theorem matureOps_St : ∀ (ops : List Nat) (x : App), St x → (∀ o ∈ ops, ∃ v, x.getVal o = some v ∧ Unb v) → ops.Nodup →
-    ∃ x', matureOps ops x = .ok x' ∧ St x' ∧ (∀ o, o ∉ ops → x'.getVal o = x.getVal o) ∧ (∀ o ∈ ops, x'.getVal o = none) ∧
+/-- the state after a jailed record's unbonding period ended: it stays, unbonded -/
+def matStateJ (x : App) (v : Val) (op : Nat) : App :=
+  { x with vals := insertVal { v with status := Status.unbonded } x.vals
+           ubq := ubqDeleteSlot (v.ubTime, v.ubHeight) op x.ubq }
+
+theorem matureOne_shapeJ (x : App) (op : Nat) (v : Val) (hv : x.getVal op = some v) (hs : v.status = .unbonding) (hsh : v.shares ≠ 0) :
+    x.matureOne op = .ok (matStateJ x v op) := by
+  have hvop := getVal_op _ _ _ hv
+  unfold matureOne
+  rw [hv]
+  simp only [hs, bne_self_eq_false, Bool.false_eq_true, ↓reduceIte]
+  have hc : ¬ ({ v with status := Status.unbonded } : Val).shares = 0 := hsh
+  rw [if_neg hc]
+  simp only [setVal, ubqDelete, matStateJ, hvop]
+
+/-- **the end of a jailed record's unbonding period keeps `St`**: the record becomes unbonded and leaves the queue -/
+theorem matureOne_St_j (x : App) (op : Nat) (v : Val) (m : St x) (hv : x.getVal op = some v) (hj : Jl v) (hs : v.status = .unbonding) :
+    ∃ x', x.matureOne op = .ok x' ∧ St x' ∧ (∀ o, o ≠ op → x'.getVal o = x.getVal o) ∧
+      (∃ w, x'.getVal op = some w ∧ Jl w ∧ w.status = .unbonded ∧ w.key = v.key) ∧ SameRest x' x ∧ x'.last = x.last := by
+  have hvm := mem_of_getVal x op v hv
+  have hvop := getVal_op _ _ _ hv
+  have io := m.idx v hvm
+  have hw : Jl ({ v with status := Status.unbonded } : Val) := ⟨hj.1, hj.2⟩
+  refine ⟨matStateJ x v op, matureOne_shapeJ x op v hv hs hj.2, ?_, ?_, ?_, ⟨rfl, rfl, rfl, rfl, rfl, rfl, rfl⟩, rfl⟩
+  · apply St_put x _ op { v with status := Status.unbonded } m hvop rfl
+    · intro y hy hn hk
+      exact hn (by rw [m.keys y hy v hvm hk]; exact hvop)
+    · exact Or.inr (Or.inr (Or.inr hw))
+    · right
+      obtain ⟨a, ha, hact⟩ := m.hasActive
+      refine ⟨a, ha, ?_, hact⟩
+      intro e
+      have : a = v := sorted_op_inj _ m.sorted a ha v hvm (by rw [e, hvop])
+      rw [this] at hact
+      exact active_not_jl v hact hj
+    · exact List.Sublist.refl _
+    · intro q hq
+      obtain ⟨f1, f2, _⟩ := m.pend.fresh q hq
+      refine ⟨?_, ?_⟩
+      · intro e; rw [e, hv] at f1; cases f1
+      · intro e; exact f2 v hvm e.symm
+    · intro o _; rfl
+    · intro hnj; exact absurd hnj (by show ¬ v.jailed = false; rw [hj.1]; simp)
+    · intro _
+      show alookup op x.last ≠ none ↔ Status.unbonded = Status.bonded
+      have := m.lastJ v hvm hj.1
+      rw [hvop, hs] at this
+      constructor
+      · intro h; exact absurd (this.mp h) (by intro e; cases e)
+      · intro h; cases h
+    · exact m.lastSorted
+    · intro e he; exact Or.inl he
+    · exact m.idxNodup
+    · intro o _; rfl
+    · intro e he _; exact he
+    · exact {
+        a1 := (fun ha => absurd hw (active_not_jl _ ha))
+        a2 := (fun hin => by
+          exfalso
+          have hin' : v.op ∈ x.updated := hin
+          exact active_not_jl v (io.a2 hin').1 hj)
+        g := (fun hg' => absurd hw (gone_not_jl _ hg'))
+        u := (fun hu => absurd hw (unb_not_jl _ hu))
+        j := (fun _ => io.j hj.1) }
+    · exact m.unbond
+    · intro y hy _; exact m.infos y hy
+    · exact m.infos v hvm
+    · intro y hy _; rfl
+    · have hc := m.cons v hvm
+      unfold valByKey at hc
+      show alookup v.key x.cons = some op
+      cases hk : alookup v.key x.cons with
+      | none => rw [hk] at hc; cases hc
+      | some o1 =>
+        rw [hk] at hc
+        simp only at hc
+        rw [← getVal_op _ _ _ hc, hvop]
+    · exact m.updSorted
+    · intro o _; exact Iff.rfl
+    · exact sorted_delete _ _ _ m.qSorted
+    · exact m.qNodup.sublist ((entries_delete_sublist _ _ _).map _)
+    · intro e he
+      have he' : e ∈ qEntries (ubqDeleteSlot (v.ubTime, v.ubHeight) op x.ubq) := he
+      have hold := (entries_delete_sublist _ _ _).subset he'
+      right
+      refine ⟨?_, hold⟩
+      intro eo
+      obtain ⟨w, hw', _, t1, t2⟩ := m.qRecs e hold
+      rw [eo, hv] at hw'
+      injection hw' with hw'
+      have : e = ((v.ubTime, v.ubHeight), op) := by rw [hw']; rw [t1, t2, ← eo]
+      rw [this] at he'
+      exact entries_delete_gone _ _ _ m.qSorted he'
+  · intro o ho
+    have := getVal_setVal_ne x { v with status := Status.unbonded } o (by simpa [hvop] using ho)
+    rw [← this]; exact getVal_congr _ _ rfl _
+  · refine ⟨{ v with status := Status.unbonded }, ?_, hw, rfl, rfl⟩
+    have h1 := getVal_setVal_self x { v with status := Status.unbonded }
+    have h2 : (matStateJ x v op).getVal ({ v with status := Status.unbonded } : Val).op = (x.setVal { v with status := Status.unbonded }).getVal ({ v with status := Status.unbonded } : Val).op :=
+      getVal_congr _ _ rfl _
+    rw [h1] at h2
+    exact (congrArg (matStateJ x v op).getVal hvop.symm).trans h2
+
+/-- a queued record: unbonding after a removal, or jailed -/
+def Queued (v : Val) : Prop := Unb v ∨ (Jl v ∧ v.status = .unbonding)
+
+/-- what maturity processing does to one operator's record -/
+def MatRel (x x' : App) (o : Nat) : Prop :=
+  x'.getVal o = x.getVal o ∨ x'.getVal o = none ∨
+  ∃ v w, x.getVal o = some v ∧ x'.getVal o = some w ∧ Jl v ∧ Jl w ∧ w.key = v.key ∧ w.status = .unbonded
+
+theorem matureOps_St : ∀ (ops : List Nat) (x : App), St x → (∀ o ∈ ops, ∃ v, x.getVal o = some v ∧ Queued v) → ops.Nodup →
+    ∃ x', matureOps ops x = .ok x' ∧ St x' ∧ (∀ o, o ∉ ops → x'.getVal o = x.getVal o) ∧ (∀ o, MatRel x x' o) ∧
       SameRest x' x ∧ x'.last = x.last
-  | [], x, m, _, _ => ⟨x, by simp [matureOps], m, fun _ _ => rfl, (fun o ho => by cases ho), SameRest.rfl' x, rfl⟩
+  | [], x, m, _, _ => ⟨x, by simp [matureOps], m, fun _ _ => rfl, fun _ => Or.inl rfl, SameRest.rfl' x, rfl⟩
   | op :: ops, x, m, hr, hn => by
     have ⟨hn1, hn2⟩ := List.nodup_cons.mp hn
-    obtain ⟨v, hv, hu⟩ := hr op (by simp)
-    obtain ⟨x1, h1, m1, f1, g1, s1, l1⟩ := matureOne_St x op v m hv hu
-    have hr1 : ∀ o ∈ ops, ∃ v, x1.getVal o = some v ∧ Unb v := by
+    obtain ⟨v, hv, hq⟩ := hr op (by simp)
+    -- one step
+    have hstep : ∃ x1, x.matureOne op = .ok x1 ∧ St x1 ∧ (∀ o, o ≠ op → x1.getVal o = x.getVal o) ∧ MatRel x x1 op ∧
+        SameRest x1 x ∧ x1.last = x.last := by
+      rcases hq with hu | ⟨hj, hs⟩
+      · obtain ⟨x1, h1, m1, f1, g1, s1, l1⟩ := matureOne_St x op v m hv hu
+        exact ⟨x1, h1, m1, f1, Or.inr (Or.inl g1), s1, l1⟩
+      · obtain ⟨x1, h1, m1, f1, ⟨w, hw, hjw, hsw, hk⟩, s1, l1⟩ := matureOne_St_j x op v m hv hj hs
+        exact ⟨x1, h1, m1, f1, Or.inr (Or.inr ⟨v, w, hv, hw, hj, hjw, hk, hsw⟩), s1, l1⟩
+    obtain ⟨x1, h1, m1, f1, g1, s1, l1⟩ := hstep
+    have hr1 : ∀ o ∈ ops, ∃ v, x1.getVal o = some v ∧ Queued v := by
       intro o ho
       have hne : o ≠ op := by intro e; subst e; exact hn1 ho
       obtain ⟨w, hw, hwu⟩ := hr o (by simp [ho])
@@ -537,16 +795,20 @@ theorem matureOps_St : ∀ (ops : List Nat) (x : App), St x → (∀ o ∈ ops, 
     · intro o hnot
       simp only [List.mem_cons, not_or] at hnot
       rw [f2 o hnot.2, f1 o hnot.1]
-    · intro o ho
-      by_cases hin : o ∈ ops
-      · exact g2 o hin
-      · rcases List.mem_cons.mp ho with e | e
-        · rw [e, f2 op (by rw [← e]; exact hin)]; exact g1
-        · exact absurd e hin
+    · intro o
+      by_cases ho : o = op
+      · subst ho
+        have : x2.getVal o = x1.getVal o := f2 o hn1
+        unfold MatRel at g1 ⊢
+        rw [this]; exact g1
+      · have h01 : x1.getVal o = x.getVal o := f1 o ho
+        have := g2 o
+        unfold MatRel at this ⊢
+        rw [h01] at this; exact this
 
-theorem matureSlots_St : ∀ (slots : Ubq) (x : App), St x → (∀ o ∈ slots.flatMap (·.2), ∃ v, x.getVal o = some v ∧ Unb v) →
+theorem matureSlots_St : ∀ (slots : Ubq) (x : App), St x → (∀ o ∈ slots.flatMap (·.2), ∃ v, x.getVal o = some v ∧ Queued v) →
     (slots.flatMap (·.2)).Nodup →
-    ∃ x', matureSlots slots x = .ok x' ∧ St x' ∧ (∀ o, x'.getVal o = x.getVal o ∨ x'.getVal o = none) ∧
+    ∃ x', matureSlots slots x = .ok x' ∧ St x' ∧ (∀ o, MatRel x x' o) ∧
       (∀ o, o ∉ slots.flatMap (·.2) → x'.getVal o = x.getVal o) ∧ SameRest x' x ∧ x'.last = x.last
   | [], x, m, _, _ => ⟨x, by simp [matureSlots], m, fun _ => Or.inl rfl, fun _ _ => rfl, SameRest.rfl' x, rfl⟩
   | ((t, hh), ops) :: rest, x, m, hr, hn => by
@@ -557,7 +819,7 @@ theorem matureSlots_St : ∀ (slots : Ubq) (x : App), St x → (∀ o ∈ slots.
     · obtain ⟨x1, h1, m1, f1, g1, s1, l1⟩ := matureOps_St ops x m (fun o ho => hr o (by simp [ho])) hn1
       rw [h1]
       simp only
-      have hr1 : ∀ o ∈ rest.flatMap (·.2), ∃ v, x1.getVal o = some v ∧ Unb v := by
+      have hr1 : ∀ o ∈ rest.flatMap (·.2), ∃ v, x1.getVal o = some v ∧ Queued v := by
         intro o ho
         have hne : o ∉ ops := fun hm => hn3 o hm o ho rfl
         obtain ⟨w, hw, hwu⟩ := hr o (by simp only [List.flatMap_cons, List.mem_append]; right; exact ho)
@@ -565,11 +827,17 @@ theorem matureSlots_St : ∀ (slots : Ubq) (x : App), St x → (∀ o ∈ slots.
       obtain ⟨x2, h2, m2, f2, k2, s2, l2⟩ := matureSlots_St rest x1 m1 hr1 hn2
       refine ⟨x2, h2, m2, ?_, ?_, s2.trans' s1, l2.trans l1⟩
       · intro o
-        rcases f2 o with e | e
-        · by_cases hin : o ∈ ops
-          · right; rw [e]; exact g1 o hin
-          · left; rw [e]; exact f1 o hin
-        · exact Or.inr e
+        by_cases hin : o ∈ ops
+        · -- handled in this slot; untouched by the rest
+          have hnr : o ∉ rest.flatMap (·.2) := fun hm => hn3 o hin o hm rfl
+          have : x2.getVal o = x1.getVal o := k2 o hnr
+          have := g1 o
+          unfold MatRel at this ⊢
+          rw [k2 o hnr]; exact this
+        · have h01 : x1.getVal o = x.getVal o := f1 o hin
+          have := f2 o
+          unfold MatRel at this ⊢
+          rw [h01] at this; exact this
       · intro o ho
         simp only [List.flatMap_cons, List.mem_append, not_or] at ho
         rw [k2 o ho.2, f1 o ho.1]
